@@ -179,7 +179,7 @@ class _GeoBounded(Contract):
     bounded_reason = ("unsupported: pandas DataFrames (reindex, replace, fillna, sub, column selection, index/columns lists) have no model in the "
                       "verifier; the functions are exercised natively instead")
     bounded_bound = ("1-5 sensors (single setup) or 2-3 setups with 1-2 references and 1-3 roving sensors each; every documented name form; random row "
-                     "permutations, spare rows, every subset of optional sheets, 9 + 8 single-fault corruptions per table set; mapping tables over "
+                     "permutations, spare rows, every subset of optional sheets, 10 + 8 single-fault corruptions per table set; mapping tables over "
                      "{sensor names, one constraint, 0, NaN}; def_geo1/def_geo2 with the documented argument forms")
     bounded_driver = {"driver": "c19_geo", "inputs": {"trials": 120, "trials_thorough": 1500}}
 
